@@ -242,6 +242,86 @@ def make_s_cache_step(params, part, nparts):
     return h
 
 
+def make_s_verify_step(params, part, nparts):
+    """Generation check of the real Python VerifyingBase as one symbolic step.  A registry chain of
+    n <= 4 registries carries *symbolic* `_generation` counters; the lookup object takes its
+    snapshot (`changed`), one entry point is queried (answer a1 cached), then every generation and
+    the uncached answer move to arbitrary values constrained only by the contract "the uncached
+    answer can differ only if the generation of some registry in ro[1:] moved" (the front
+    registry's own changes reach the lookup through changed(), not through generations).  The same
+    query must now return the current uncached answer, and a detected change must refresh the
+    snapshot to the current generations of exactly ro[1:]."""
+    from zope.interface.adapter import VerifyingBaseFallback
+
+    class R:
+        __slots__ = ('_generation', 'ro')
+
+    def h(n: int, ep: int, named: int, a1: int, a2: int,
+          g0: int, g1: int, g2: int, g3: int, h0: int, h1: int, h2: int, h3: int):
+        c_n = pick(n, 4) + 1
+        c_ep = pick(ep, 5)
+        assume((c_ep * 4 + c_n - 1) % nparts == part)
+        c_named = pick(named, 2)
+        pre, post = (g0, g1, g2, g3)[:c_n], (h0, h1, h2, h3)[:c_n]
+        moved = False
+        for i in range(1, c_n):
+            moved = moved or (pre[i] != post[i])
+        assume(moved or a1 == a2)
+        chain = []
+        for i in range(c_n):
+            r = R()
+            r._generation = pre[i]
+            chain.append(r)
+        chain[0].ro = chain
+        now = [a1]
+
+        class VB(VerifyingBaseFallback):
+            _registry = chain[0]
+
+            def _uncached_lookup(self, required, provided, name=''):
+                return ('ans', now[0])
+
+            def _uncached_lookupAll(self, required, provided):
+                return ('all', now[0])
+
+            def _uncached_subscriptions(self, required, provided):
+                return ('subs', now[0])
+
+        vb = VB()
+        vb.changed(None)
+        name = 'n' if c_named else ''
+
+        def query():
+            if c_ep == 0:
+                return vb.lookup(('r',), 'p', name)
+            if c_ep == 1:
+                return vb.lookup1('r', 'p', name)
+            if c_ep == 2:
+                return vb.lookup(('r', 'r2'), 'p', name)
+            if c_ep == 3:
+                return vb.lookupAll(('r',), 'p')
+            return vb.subscriptions(('r',), 'p')
+        tag = ('ans', 'ans', 'ans', 'all', 'subs')[c_ep]
+        reached(None, dict(n=c_n, entry=c_ep))
+        first = query()
+        if first != (tag, a1):
+            raise Violation('first query returned %r, uncached answer %r' % (first, (tag, a1)), signature='C05:verify-kernel:first')
+        for i in range(c_n):
+            chain[i]._generation = post[i]
+        now[0] = a2
+        second = query()
+        if second != (tag, a2):
+            raise Violation('chain of %d registries, entry %d: generations %r -> %r; the repeated query answers %r, the uncached answer is now %r '
+                            '(a change of a base registry was not noticed)' % (c_n, c_ep, list(pre), list(post), second, (tag, a2)),
+                            signature='C05:verify-kernel:stale')
+        if moved:
+            snap = list(vb._verify_generations)
+            if snap != list(post[1:]) or len(vb._verify_ro) != c_n - 1:
+                raise Violation('after a detected change the snapshot is %r, current generations of ro[1:] are %r' % (snap, list(post[1:])),
+                                signature='C05:verify-kernel:snapshot')
+    return h
+
+
 _ENC = ['zope.interface.adapter:LookupBaseFallback.lookup', 'zope.interface.adapter:LookupBaseFallback.lookup1',
         'zope.interface.adapter:LookupBaseFallback.adapter_hook', 'zope.interface.adapter:LookupBaseFallback.lookupAll',
         'zope.interface.adapter:LookupBaseFallback.subscriptions', 'zope.interface.adapter:LookupBaseFallback.changed',
@@ -292,6 +372,18 @@ HARNESSES = [
             oracle='uncached answer as an uninterpreted function of the key; Inv re-established',
             stubs=['_uncached_* overridden by an uninterpreted function of the key',
                    'key objects with symbolic identity and a constant hash (equal objects hash equal)']),
+    Harness('s_verify_step', make_s_verify_step, kind='S', impls=('py',),
+            tiers=dict(quick=dict(budget_s=60, parts=10, ppt=40, params={}),
+                       thorough=dict(budget_s=300, parts=10, ppt=80, params={})),
+            encoded=['zope.interface.adapter:VerifyingBase.changed', 'zope.interface.adapter:VerifyingBase._verify',
+                     'zope.interface.adapter:VerifyingBase._getcache', 'zope.interface.adapter:VerifyingBase.lookupAll',
+                     'zope.interface.adapter:VerifyingBase.subscriptions', 'zope.interface.adapter:LookupBaseFallback.lookup'],
+            bounds='real Python VerifyingBase over a chain of 1..4 registries with arbitrary integer _generation counters before and after; '
+                   'entry points lookup (arity 1 and 2), lookup1, lookupAll, subscriptions; name in {"","n"}; answers a1, a2 arbitrary integers',
+            outside='chains longer than 4; the C VerifyingBase (Engine C ir_lookup and the E tiers)',
+            oracle='contract: the uncached answer differs only if a generation in ro[1:] moved; repeated query == current uncached answer; '
+                   'snapshot refreshed to ro[1:]',
+            stubs=['registry chain = objects with symbolic _generation', '_uncached_* return the current symbolic answer']),
 ]
 
 MANIFEST = {
